@@ -240,6 +240,10 @@ video_filter_configure(struct video_filter_s* self,
 enum DeviceStatusCode
 video_filter_start(struct video_filter_s* self)
 {
+    // Register the reader before any frame can be written (see
+    // video_sink_start).
+    channel_read_map(&self->in, &self->reader);
+    channel_read_unmap(&self->in, &self->reader, 0);
     self->is_stopping = 0;
     self->is_running = 1;
     CHECK(
